@@ -19,13 +19,25 @@ package vm
 //@ ghost var wVersion map[int]int
 //@ ghost var sdbCtxLayer map[ref]int
 
+// NewStateDB: VERIFIED for the C03 clauses (the representation invariant holds initially; the StateDB works in a child
+// layer of ctx with the same view). The clauses that link the abstract StateDB view (sdbBal, sdbNonce, sdbSupply ... of
+// prelude/31_geth_vm.spec, used by x/evm/keeper) to the bank / auth state of layer(ctx) are TRUSTED: that view is not
+// defined in terms of cStateDb's fields, so they cannot be checked against the body.
 //@ func NewStateDB(ctx sdk.Context, coinbase common.Address, ethKeeper EvmKeeper, accountKeeper authkeeper.AccountKeeper, bankKeeper bankkeeper.Keeper) CStateDB
-//@   assumed
+//@   requires ethKeeper != nil
 //@   modifies nothing
-//@   ensures result != nil && fresh(payload(result)) && sdbCtxLayer[payload(result)] == layer(ctx)
-//@   ensures forall a common.Address :: sdbBal[payload(result)][a] >= 0 && sdbBal[payload(result)][a] == bankBal[layer(ctx)][addrBytes(a)][evmDenomOf[layer(ctx)]] && sdbNonce[payload(result)][a] == acctSeq[layer(ctx)][addrBytes(a)]
-//@   ensures sdbSupply[payload(result)] == bankSupply[layer(ctx)][evmDenomOf[layer(ctx)]]
-//@   ensures forall d string :: d != evmDenomOf[layer(ctx)] ==> sdbSupplyX[payload(result)][d] == bankSupply[layer(ctx)][d]
+//@   ensures[C03.new_object] result != nil && typeof(result) == type(*cStateDb) && fresh(payload(result))
+//@   ensures[C03.new_fields] unbox(result, type(*cStateDb)).originalCtx == ctx && unbox(result, type(*cStateDb)).evmKeeper == ethKeeper && unbox(result, type(*cStateDb)).bankKeeper == bankKeeper && unbox(result, type(*cStateDb)).accountKeeper == accountKeeper && unbox(result, type(*cStateDb)).coinbase == coinbase && unbox(result, type(*cStateDb)).evmDenom == evmDenomOf[layer(ctx)] && unbox(result, type(*cStateDb)).refund == 0 && len(unbox(result, type(*cStateDb)).logs) == 0
+//@   ensures[C03.new_view] len(unbox(result, type(*cStateDb)).snapshots) == 1 && viewEq(layer(unbox(result, type(*cStateDb)).currentCtx), layer(ctx)) && lyrParent(layer(unbox(result, type(*cStateDb)).currentCtx)) == layer(ctx) && layer(unbox(result, type(*cStateDb)).currentCtx) != layer(ctx)
+//@   ensures[C03.new_empty] (forall a common.Address :: !(a in unbox(result, type(*cStateDb)).touched) && !(a in unbox(result, type(*cStateDb)).selfDestructed) && !(a in unbox(result, type(*cStateDb)).accessList.elements) && !(a in unbox(unbox(result, type(*cStateDb)).transientStorage, type(transientStorage))))
+//@   ensures[C03.new_inv_stack] sdbStack(unbox(result, type(*cStateDb)))
+//@   ensures[C03.new_inv_layers] sdbLayers(unbox(result, type(*cStateDb)))
+//@   ensures[C03.new_inv_live] sdbLive(unbox(result, type(*cStateDb)))
+//@   ensures[C03.new_inv_sep] sdbSep(unbox(result, type(*cStateDb)))
+//@   trusted ensures sdbCtxLayer[payload(result)] == layer(ctx)
+//@   trusted ensures forall a common.Address :: sdbBal[payload(result)][a] >= 0 && sdbBal[payload(result)][a] == bankBal[layer(ctx)][addrBytes(a)][evmDenomOf[layer(ctx)]] && sdbNonce[payload(result)][a] == acctSeq[layer(ctx)][addrBytes(a)]
+//@   trusted ensures sdbSupply[payload(result)] == bankSupply[layer(ctx)][evmDenomOf[layer(ctx)]]
+//@   trusted ensures forall d string :: d != evmDenomOf[layer(ctx)] ==> sdbSupplyX[payload(result)][d] == bankSupply[layer(ctx)][d]
 //@   panics never
 
 //@ func (d CStateDB) GetTransactionLogs() []*ethtypes.Log
